@@ -174,4 +174,78 @@ theorem progress_all {s : State} (g : Good s) (hh : s.holding = []) :
     · exact k2 r c.active
     · exact a2 r hr
 
+/-! ### draining: everything in flight can complete and every block can be released -/
+
+structure Drained (s s' : State) : Prop where
+  holding : s'.holding = s.holding
+  writer : s'.writer = s.writer
+  phase : ∀ p, (s'.pl p).phase = (s.pl p).phase
+  good : Good s'
+
+/-- every half-done creation can be completed (by the half that is missing) -/
+theorem drain_half {s : State} (g : Good s) :
+    ∃ h s', run s h = some s' ∧ s'.half = [] ∧ Drained s s' := by
+  generalize hn : s.half.length = n
+  induction n generalizing s with
+  | zero =>
+    exact ⟨[], s, rfl, List.eq_nil_of_length_eq_zero hn, rfl, rfl, fun _ => rfl, g⟩
+  | succ n ih =>
+    match hhalf : s.half with
+    | [] => rw [hhalf] at hn; cases hn
+    | (b, c) :: rest =>
+      have hm : (b, c) ∈ s.half := by rw [hhalf]; exact List.mem_cons_self
+      have hb : b ∈ s.holding := g.halfHeld _ hm
+      have hlen : (s.half.erase (b, c)).length = n := by
+        rw [List.length_erase_of_mem hm, hn]; rfl
+      rcases g.halfXor _ hm with ⟨hst, hs⟩ | ⟨hst, hs⟩
+      · -- recorded, not yet relayed
+        have e : step? s (.relay b c) =
+            some { s with sent := c :: s.sent, half := s.half.erase (b, c), pl := deliver s.pl c } := by
+          simp only [step?]
+          rw [if_pos ⟨hb, hs⟩, if_pos hst, if_pos hm]
+        obtain ⟨h, s', hr, hh, d⟩ := ih (good_step g e) hlen
+        refine ⟨.relay b c :: h, s', by simp only [run, e]; exact hr, hh, d.holding, d.writer, ?_, d.good⟩
+        intro p; rw [d.phase p]; exact deliver_phase _ _ _
+      · -- relayed, not yet recorded
+        have e : step? s (.record b c) =
+            some { s with store := c :: s.store, half := s.half.erase (b, c) } := by
+          simp only [step?]
+          rw [if_pos ⟨hb, hst⟩, if_pos hs, if_pos hm]
+        obtain ⟨h, s', hr, hh, d⟩ := ih (good_step g e) hlen
+        exact ⟨.record b c :: h, s', by simp only [run, e]; exact hr, hh, d.holding, d.writer,
+          d.phase, d.good⟩
+
+/-- with nothing half done every held block can be released -/
+theorem drain_blocks {s : State} (g : Good s) (hh : s.half = []) :
+    ∃ h s', run s h = some s' ∧ s'.holding = [] ∧ s'.writer = s.writer ∧
+      (∀ p, s'.pl p = s.pl p) ∧ Good s' := by
+  generalize hn : s.holding.length = n
+  induction n generalizing s with
+  | zero => exact ⟨[], s, rfl, List.eq_nil_of_length_eq_zero hn, rfl, fun _ => rfl, g⟩
+  | succ n ih =>
+    match hhold : s.holding with
+    | [] => rw [hhold] at hn; cases hn
+    | b :: rest =>
+      have e : step? s (.unblock b) = some { s with holding := rest } := by
+        simp only [step?]
+        rw [if_pos ⟨by rw [hhold]; exact List.mem_cons_self, by rw [hh]; intro x hx; cases hx⟩]
+        simp [hhold]
+      have hlen : rest.length = n := by
+        rw [hhold] at hn; simpa using hn
+      obtain ⟨h, s', hr, h0, hw, hp, g'⟩ := ih (s := { s with holding := rest }) (good_step g e) hh hlen
+      exact ⟨.unblock b :: h, s', by simp only [run, e]; exact hr, h0, hw, hp, g'⟩
+
+/-- **No deadlock.** From ANY state satisfying the invariant — blocks held, creations in
+    flight, somebody in the exclusive section — an idle plugin's registration can complete:
+    finish what is in flight, release the blocks, let the writer leave, register. -/
+theorem no_deadlock {s : State} (g : Good s) {p : Pid} (hp : (s.pl p).phase = .idle) :
+    ∃ h s', run s h = some s' ∧ (s'.pl p).phase = .active ∧ s'.writer = none ∧ s'.holding = [] := by
+  obtain ⟨h1, s1, r1, hh1, d1⟩ := drain_half g
+  obtain ⟨h2, s2, r2, h02, _, hp2, g2⟩ := drain_blocks d1.good hh1
+  have hp' : (s2.pl p).phase = .idle := by rw [hp2 p, d1.phase p]; exact hp
+  obtain ⟨s3, r3, c⟩ := progress_one g2 h02 hp'
+  refine ⟨h1 ++ (h2 ++ completion s2 p), s3, ?_, c.active, c.writer, c.holding⟩
+  simp only [run_append, r1, r2, Option.bind_some]
+  exact r3
+
 end Nri.Locks
